@@ -383,10 +383,22 @@ fn has_operator_char(text: &str) -> bool {
     text.contains('|') || text.contains('&') || text.contains('<') || text.contains('>')
 }
 
-/// `NAME=value` words are taken off the line as assignments before operators
-/// are looked for, and only while they are untagged: they keep their tag.
 fn is_assignment_word(text: &str) -> bool {
     libs::re::re_contains(text, r"^[a-zA-Z0-9_]+=")
+}
+
+/// The `NAME=value` words a line starts with are taken off it as assignments
+/// before operators are looked for, and only while they are untagged: they
+/// keep their tag. Anywhere else such a word is an ordinary argument.
+fn in_assignment_prefix(tokens: &types::Tokens, idx: usize) -> bool {
+    let mut i = 0;
+    while i <= idx && i < tokens.len() {
+        if !tokens[i].0.is_empty() || !is_assignment_word(&tokens[i].1) {
+            return false;
+        }
+        i += 1;
+    }
+    true
 }
 
 /// Whether `path` lies below a directory whose name starts with a `.` that
@@ -859,7 +871,7 @@ pub fn expand_env(sh: &Shell, tokens: &mut types::Tokens) {
     for (i, text) in buff.iter().rev() {
         // a value is data: operator characters it brings into an unquoted
         // word must not be read as syntax by the later passes
-        if tokens[*i].0.is_empty() && !is_assignment_word(&tokens[*i].1)
+        if tokens[*i].0.is_empty() && !in_assignment_prefix(tokens, *i)
                 && !has_operator_char(&tokens[*i].1) && has_operator_char(text) {
             tokens[*i].0 = String::from("\"");
         }
@@ -975,7 +987,7 @@ fn do_command_substitution_for_dollar(sh: &mut Shell, tokens: &mut types::Tokens
         }
         line.push_str(&rest);
 
-        if got_operator && sep.is_empty() && !is_assignment_word(token) {
+        if got_operator && sep.is_empty() && !in_assignment_prefix(tokens, idx) {
             data_words.push(idx);
         }
         buff.insert(idx, line.clone());
